@@ -8,7 +8,9 @@ PATCH=$1; TIER=$2; shift 2
 cd /repo || exit 2
 if ! git diff --quiet; then echo "refusing: /repo has local modifications"; exit 2; fi
 if ! git apply $REV "$PATCH"; then echo "patch does not apply"; exit 2; fi
-trap 'git -C /repo checkout -- . ; git -C /repo clean -fdq -- tests src 2>/dev/null' EXIT
+# evidence files describe runs on the unchanged tree: keep them out of reach of the mutated runs
+EVBAK=$(mktemp -d /dev/shm/evbak.XXXXXX); cp -a /verif/evidence/. $EVBAK/
+trap 'git -C /repo checkout -- . ; git -C /repo clean -fdq -- tests src 2>/dev/null; rm -rf /verif/evidence; mkdir -p /verif/evidence; cp -a $EVBAK/. /verif/evidence/; rm -rf $EVBAK' EXIT
 cd /verif
 for id in "$@"; do
   out=$(./check $id $TIER 2>&1); rc=$?
